@@ -214,8 +214,8 @@ func runCloseEnumeration(c *Ctx, r *Rep) {
 		r.undecided("closeenum|(*py.ModuleStore).OnContextClosed", token.NoPos, "anchor function not found")
 		return
 	}
-	fd := c.Decl(m)
 	p := c.MustPkg("py")
+	fd := c.Expand(p, c.Decl(m)) // the per-module call may sit in a helper
 	r.analysed("(*py.ModuleStore).OnContextClosed")
 	var mapField *types.Var
 	if st, ok := c.Named("py", "ModuleStore").Underlying().(*types.Struct); ok {
